@@ -1,7 +1,7 @@
 -------------------------- MODULE Orchestration_Trace --------------------------
 (***************************************************************************)
 (* Trace validation for C08 on traces of the `orch` driver                 *)
-(* (harness/drivers/disruption/orch.go, format: spec/DISRUPT_TRACE.md §4). *)
+(* (harness/drivers/disruption/orch.go, format: spec/DISRUPT_TRACE.md §5). *)
 (*                                                                         *)
 (* Observed state, taken from the log: the API store (every NodeClaim /    *)
 (* Node as stored after each choke-point write or environment step: does   *)
